@@ -5,6 +5,7 @@
 -/
 import MoreExec.Proofs.Retry.Timing
 import MoreExec.Gen.K2
+import MoreExec.Gen.K15
 import MoreExec.Proofs.Throttle.Fifo
 import MoreExec.Props.C14
 import MoreExec.Props.C15
@@ -163,3 +164,13 @@ theorem C06_cancelled_queued_never_handed (c0 : Option Nat) (as : List Act) (s :
   exact this.2 hk
 
 end MoreExec.Throttle
+
+namespace MoreExec.MapFut
+
+/-- (map.py, regenerated) `MapFuture._me_cancel` - the cancel hook of every map / flat_map / timeout / throttle-derived future - forwards
+the request to the delegate while there is one, and REFUSES (False) when there is none: a future that is being resolved (its delegate
+has finished, the mapping function is running and may be about to return an inner future) has nothing to forward the request to, so
+`cancel()` must not claim success. -/
+theorem C06_map_cancel_forwards_or_refuses : MoreExec.Gen.K15.meCancelForwardsOrRefuses = true := by decide
+
+end MoreExec.MapFut
